@@ -67,7 +67,12 @@ const TEXTS: &[&str] = &[
     "<p>Visit <a href=\"https://evil.example/\">this</a> an page.</p>\n",
     "Plain text without anything special, but an wibblet.\n",
 ];
-const CONFIGS: &[&str] = &["{}", r#"{"linters": {"SpellCheck": false}}"#, r#"{"dialect": "British"}"#, r#"{"isolateEnglish": true}"#, r#"{"codeActions": {"ForceStable": true}}"#];
+const CONFIGS: &[&str] = &[
+    "{}", r#"{"linters": {"SpellCheck": false}}"#, r#"{"dialect": "British"}"#, r#"{"isolateEnglish": true}"#, r#"{"codeActions": {"ForceStable": true}}"#,
+    // what an editor extension sends for settings the user left blank: the empty string means
+    // "not set", i.e. the default location below the (sandboxed) XDG directories
+    r#"{"fileDictPath": ""}"#, r#"{"userDictPath": ""}"#, r#"{"statsPath": "", "fileDictPath": ""}"#,
+];
 
 #[derive(Debug, Clone)]
 pub struct Finding {
@@ -277,7 +282,8 @@ fn run_session(c: &Session, ctx: &mut CaseCtx) -> Result<Result<(), String>, Lsp
                 let cmd = if matches!(st, Step::AddUser { .. }) { "HarperAddToUserDict" } else { "HarperAddToFileDict" };
                 let uri = sb.uri(DOCS[i].0);
                 srv.execute_and_publish(cmd, json!([format!("zqword{}", saves), uri]), &uri)?;
-                if let Some(g) = known {
+                let blank_paths = CONFIGS[config_idx % CONFIGS.len()].contains("Path\": \"\"");
+                if let (Some(g), false) = (known, blank_paths) {
                     added.push((format!("zqword{}", saves), matches!(st, Step::AddUser { .. }), g));
                 }
                 // the command re-checks the document afterwards, which pulls the configuration
@@ -310,6 +316,9 @@ fn run_session(c: &Session, ctx: &mut CaseCtx) -> Result<Result<(), String>, Lsp
                     }
                 }
                 config_idx = *idx as usize;
+                if CONFIGS[config_idx % CONFIGS.len()].contains("Path\": \"\"") {
+                    ctx.class("empty_string_path_setting");
+                }
                 let settings = settings_of(*idx as usize);
                 srv.settings = settings.clone();
                 let before: Vec<usize> = (0..4).map(|i| srv.publications_for(&sb.uri(DOCS[i].0))).collect();
@@ -329,7 +338,13 @@ fn run_session(c: &Session, ctx: &mut CaseCtx) -> Result<Result<(), String>, Lsp
                 }
             }
             Step::OddUri { which, text } => {
-                let uri = ODD_URIS[*which as usize % ODD_URIS.len()];
+                let traversal = format!("file://{}/..%2F..%2Foutside%2Fleak.md", sb.ws_file("").display());
+                let encoded_sep = format!("file://{}/sub%2Fdir%2Fnote.md", sb.ws_file("").display());
+                let uri: &str = match *which as usize % (ODD_URIS.len() + 2) {
+                    k if k < ODD_URIS.len() => ODD_URIS[k],
+                    k if k == ODD_URIS.len() => &traversal,
+                    _ => &encoded_sep,
+                };
                 let t = TEXTS[*text as usize % TEXTS.len()];
                 // these may or may not be accepted; whatever happens must stay on this machine
                 srv.notify("textDocument/didOpen", json!({"textDocument": {"uri": uri, "languageId": "markdown", "version": 1, "text": t}}))?;
@@ -384,9 +399,12 @@ fn run_session(c: &Session, ctx: &mut CaseCtx) -> Result<Result<(), String>, Lsp
                     let uri = sb.uri(DOCS[i].0);
                     srv.change(&uri, version, &texts[i].clone())?;
                     known = Some(paths_gen.get());
+                    let blank_paths = CONFIGS[config_idx % CONFIGS.len()].contains("Path\": \"\"");
                     for cmd in ["HarperAddToFileDict", "HarperAddToUserDict"] {
                         srv.execute_and_publish(cmd, json!([format!("zqword{}", saves), uri]), &uri)?;
-                        added.push((format!("zqword{}", saves), cmd == "HarperAddToUserDict", paths_gen.get()));
+                        if !blank_paths {
+                            added.push((format!("zqword{}", saves), cmd == "HarperAddToUserDict", paths_gen.get()));
+                        }
                         saves += 1;
                         commands += 1;
                     }
@@ -432,6 +450,12 @@ fn run_session(c: &Session, ctx: &mut CaseCtx) -> Result<Result<(), String>, Lsp
         alt_user.parent().unwrap().to_string_lossy().to_string(),
         alt_files.to_string_lossy().to_string(),
     ];
+    // the default locations (settings left blank), below the sandboxed XDG directories
+    allowed.push(sb.root.join("config/harper-ls/dictionary.txt").to_string_lossy().to_string());
+    allowed.push(format!("{}/", sb.root.join("data/harper-ls/file_dictionaries").to_string_lossy()));
+    allowed.push(sb.root.join("data/harper-ls/stats.txt").to_string_lossy().to_string());
+    dirs.push(sb.root.join("config/harper-ls").to_string_lossy().to_string());
+    dirs.push(sb.root.join("data/harper-ls/file_dictionaries").to_string_lossy().to_string());
     if c.symlinked_user_dict {
         // the file the configured dictionary points to is the configured dictionary
         allowed.push(link_target.to_string_lossy().to_string());
@@ -501,10 +525,10 @@ fn step() -> BoxedStrategy<Step> {
         3 => (0u8..4).prop_map(|doc| Step::AddFile { doc }),
         1 => (0u8..4).prop_map(|doc| Step::Ignore { doc }),
         2 => Just(Step::Record),
-        2 => any::<u8>().prop_map(|idx| Step::Config { idx }),
+        3 => any::<u8>().prop_map(|idx| Step::Config { idx }),
         1 => (0u8..4).prop_map(|doc| Step::CodeActions { doc }),
         1 => (0u8..4).prop_map(|doc| Step::DeleteFile { doc }),
-        2 => (0u8..4, any::<u8>()).prop_map(|(which, text)| Step::OddUri { which, text }),
+        3 => (0u8..6, any::<u8>()).prop_map(|(which, text)| Step::OddUri { which, text }),
         3 => (0u8..6, any::<u8>()).prop_map(|(shape, text)| Step::DeepPath { shape, text }),
         3 => Just(Step::SilentPaths),
     ]
